@@ -36,6 +36,8 @@ def make_options(mode, state):
         class F(CompilerContext):
             pass
         return F
+    if mode == 'from-file':            # compile_prolog_from_file on a file holding the text (default options)
+        return 'FILE'
     if mode == 'bare-object':          # like the tests' option object: no current_source_file attribute
         class B:
             debug_filename = False
@@ -44,10 +46,31 @@ def make_options(mode, state):
         return B()
     raise ValueError(mode)
 
+def _via_file(text):
+    """the text written to a scratch file (UTF-8, no newline translation) and compiled with compile_prolog_from_file;
+    texts that UTF-8 cannot carry (lone surrogates) go through compile_prolog_from_string"""
+    import os, tempfile
+    from yldprolog.compiler import compile_prolog_from_string, compile_prolog_from_file
+    try:
+        data = text.encode('utf8')
+    except UnicodeEncodeError:
+        return compile_prolog_from_string(text)
+    base = os.environ.get('VERIF_SCRATCH') or None
+    fd, path = tempfile.mkstemp(suffix='.pl', dir=base)
+    try:
+        with os.fdopen(fd, 'wb') as f:
+            f.write(data)
+        return compile_prolog_from_file(path)
+    finally:
+        os.remove(path)
+
 def compile_one(text, opts):
     from yldprolog.compiler import compile_prolog_from_string
     try:
-        out = compile_prolog_from_string(text) if opts is None else compile_prolog_from_string(text, opts)
+        if opts == 'FILE':
+            out = _via_file(text)
+        else:
+            out = compile_prolog_from_string(text) if opts is None else compile_prolog_from_string(text, opts)
     except RecursionError:
         return 'EXC:RecursionError'
     except Exception as e:
